@@ -202,3 +202,11 @@ def dump_index(zdir: Path):
         )
     con.close()
     return rows
+
+
+def dump_pages(zdir: Path):
+    db = zdir / ".zorg" / "zorg.db"
+    con = sqlite3.connect(f"file:{db}?mode=ro", uri=True)
+    rows = sorted(r[0] for r in con.execute("select path from page"))
+    con.close()
+    return rows
